@@ -73,6 +73,13 @@ async def explore(tier, seed, m, v):
         if time.time() - t0 > (100 if tier == "quick" else 1200): break
         sg = SchemaGen(rng)
         renv = sg.gen_env(adv=0.1, fail=0.15)
+        foreign = si % 4 == 3
+        if foreign:
+            # some resolvers raise an exception that renders itself (own `coerce_value`) and is no library error: outside the
+            # executor model (no comparison with it on this schema), inside C18: the response must still be well formed
+            for coord, spec in list(renv["resolvers"].items()):
+                if spec["k"] in ("const", "raise") and rng.random() < 0.25 and coord.split(".")[1] not in sg.echo:
+                    renv["resolvers"][coord] = {"k": "raise", "v": {"x": False, "m": "foreign boom", "e": [], "foreign": 1}}
         # engine with a counting / rewriting error coercer on half of the schemas
         coerced_log = []
         custom = si % 3 == 1
@@ -145,7 +152,7 @@ async def explore(tier, seed, m, v):
             if "errors" in resp: stats["nontrivial"].add(h)
             if pr:
                 stats["problems"].append({"query": q if isinstance(q, str) else repr(q), "operation_name": opn, "variables": repr(variables)[:300], "response": json.loads(json.dumps(resp, default=str))if True else None, "what": pr[:5], "sdl": print_sdl(b.model)})
-            elif kind in ("valid", "opname", "valid+bytes", "opname+bytes") and m is not None and isinstance(variables, (dict, type(None))) and not custom and not stamping:
+            elif kind in ("valid", "opname", "valid+bytes", "opname+bytes") and m is not None and isinstance(variables, (dict, type(None))) and not custom and not stamping and not foreign:
                 real = {"data": enc(resp.get("data")), "errors": er.canon_errors(resp.get("errors")), "calls": calls}
                 req = er.model_request(b, q, opn, variables, None, renv)
                 mod = m.ask(req)
